@@ -100,7 +100,7 @@ def gen_string(rng):
         start = rng.choice([0, 0x10, 0x20, 0x30, 0x40, 0x50, 0x60, 0x70, 0x80, 0xa0, 0xc0, 0x7f0, 0xfff0 - 0x800, 0x1fff0])
         return "".join(chr(c) for c in range(start, start + 16) if not 0xd800 <= c <= 0xdfff)
     if k == 13:                     # a byte without a named escape directly followed by a digit (NUL included)
-        return rng.choice(["", "a", "<"]) + rng.choice("\0\x01\x02\x05\x0e\x1b\x1f\x7f") + rng.choice("0123456789") + \
+        return rng.choice(["", "a", "<", "\xe9", "\u65e5\u672c", "\U0001f600x"]) + rng.choice("\0\x01\x02\x05\x0e\x1b\x1f\x7f") + rng.choice("0123456789") + \
             rng.choice(["", "1", ">", "\0" + "9"])
     return "".join(rng.choice("abc de") for _ in range(rng.randrange(1, 12)))
 
